@@ -1,13 +1,17 @@
 // ===== U-FMT spec vocabulary and lemmas (verified by Verus; no assume/admit) =====
 pub open spec fn is_ins(c: char) -> bool { c == ' ' || c == '\n' }
 
-pub open spec fn ins(o: Seq<char>, i: Seq<char>) -> bool
-    decreases o.len()
+/// `o` and `i` are equal up to insertions / deletions of ' ' and '\n'
+/// (the weakest relation, maintained character by character, that implies clause 1:
+///  equal after removing all whitespace)
+pub open spec fn wseq(o: Seq<char>, i: Seq<char>) -> bool
+    decreases o.len() + i.len()
 {
-    if o.len() == 0 { i.len() == 0 }
+    if o.len() == 0 && i.len() == 0 { true }
     else {
-        (is_ins(o.last()) && ins(o.drop_last(), i))
-        || (i.len() > 0 && o.last() == i.last() && ins(o.drop_last(), i.drop_last()))
+        (o.len() > 0 && is_ins(o.last()) && wseq(o.drop_last(), i))
+        || (i.len() > 0 && is_ins(i.last()) && wseq(o, i.drop_last()))
+        || (o.len() > 0 && i.len() > 0 && o.last() == i.last() && wseq(o.drop_last(), i.drop_last()))
     }
 }
 
@@ -18,23 +22,31 @@ pub open spec fn spaces(n: int) -> Seq<char>
 }
 
 pub broadcast proof fn lemma_ins_push_ws(o: Seq<char>, i: Seq<char>, c: char)
-    requires ins(o, i), is_ins(c)
-    ensures #![trigger ins(o, i), o.push(c)] ins(o.push(c), i)
+    requires wseq(o, i), is_ins(c)
+    ensures #![trigger wseq(o, i), o.push(c)] wseq(o.push(c), i)
 {
     assert(o.push(c).drop_last() =~= o);
 }
 
+/// the formatter may also skip a blank / line break of the input
+pub broadcast proof fn lemma_ins_skip_ws(o: Seq<char>, i: Seq<char>, c: char)
+    requires wseq(o, i), is_ins(c)
+    ensures #[trigger] wseq(o, i.push(c))
+{
+    assert(i.push(c).drop_last() =~= i);
+}
+
 pub broadcast proof fn lemma_ins_push_same(o: Seq<char>, i: Seq<char>, c: char)
-    requires ins(o, i)
-    ensures #![trigger ins(o, i), o.push(c)] ins(o.push(c), i.push(c))
+    requires wseq(o, i)
+    ensures #![trigger wseq(o, i), o.push(c)] wseq(o.push(c), i.push(c))
 {
     assert(o.push(c).drop_last() =~= o);
     assert(i.push(c).drop_last() =~= i);
 }
 
 pub broadcast proof fn lemma_ins_spaces(o: Seq<char>, i: Seq<char>, n: int)
-    requires ins(o, i)
-    ensures #![trigger ins(o, i), o + spaces(n)] ins(o + spaces(n), i)
+    requires wseq(o, i)
+    ensures #![trigger wseq(o, i), o + spaces(n)] wseq(o + spaces(n), i)
     decreases n
 {
     if n <= 0 {
@@ -73,18 +85,22 @@ pub open spec fn strip(s: Seq<char>, w: spec_fn(char) -> bool) -> Seq<char>
 }
 
 pub proof fn lemma_ins_strip(o: Seq<char>, i: Seq<char>, w: spec_fn(char) -> bool)
-    requires ins(o, i), w(' '), w('\n')
+    requires wseq(o, i), w(' '), w('\n')
     ensures strip(o, w) == strip(i, w)
-    decreases o.len()
+    decreases o.len() + i.len()
 {
-    if o.len() == 0 {
-    } else if is_ins(o.last()) && ins(o.drop_last(), i) {
+    if o.len() == 0 && i.len() == 0 {
+    } else if o.len() > 0 && is_ins(o.last()) && wseq(o.drop_last(), i) {
         lemma_ins_strip(o.drop_last(), i, w);
+    } else if i.len() > 0 && is_ins(i.last()) && wseq(o, i.drop_last()) {
+        lemma_ins_strip(o, i.drop_last(), w);
     } else {
         lemma_ins_strip(o.drop_last(), i.drop_last(), w);
     }
 }
 
+/// number of input characters consumed so far
+pub open spec fn consumed(input: Seq<char>, c: &PeekChars) -> int { input.len() - c.rest().len() }
 
 // =============================================================================================
 // C15 clause 2: indentation.  The postcondition is a predicate over the OUTPUT TEXT ALONE:
@@ -285,6 +301,273 @@ pub broadcast proof fn lemma_proj_set_last(ks: Seq<char>, fs: Seq<bool>, kind: c
     let p = proj(ks.drop_last(), fs.drop_last(), kind);
     if ks.last() == kind {
         assert(p.push(true) =~= p.push(fs.last()).update(p.len() as int, true));
+    }
+}
+
+
+// ---- transition lemmas: one per way an arm of the formatter extends the output ----------------------
+// Each is proved once, in isolation, with every step spelled out, so that the obligations left inside the
+// extracted function are only "the output has this shape" and "the lemma's precondition holds".
+pub open spec fn arm_pre(input: Seq<char>, k: int, o0: Seq<char>, l0: int, tl0: Seq<Scope>, al0: Seq<Scope>, c: char) -> bool {
+    &&& 1 <= k <= input.len()
+    &&& nested_upto(input, k)
+    &&& ind_inv(input, k - 1, o0, l0, tl0, al0)
+    &&& input[k - 1] == c
+    &&& c != ' ' && c != '\n'
+}
+
+pub proof fn lemma_cnt_drop_last(s: Seq<bool>)
+    requires s.len() > 0
+    ensures cnt(s.drop_last()) == cnt(s) - if s.last() { 1int } else { 0int }
+{}
+
+pub proof fn lemma_braces_push(ks: Seq<char>, fs: Seq<bool>, c: char, b: bool)
+    requires ks.len() == fs.len(), braces_broken(ks, fs), c == '{' ==> b
+    ensures braces_broken(ks.push(c), fs.push(b))
+{}
+
+pub proof fn lemma_braces_pop(ks: Seq<char>, fs: Seq<bool>)
+    requires ks.len() == fs.len(), ks.len() > 0, braces_broken(ks, fs)
+    ensures braces_broken(ks.drop_last(), fs.drop_last())
+{}
+
+pub proof fn lemma_braces_set_last(ks: Seq<char>, fs: Seq<bool>)
+    requires ks.len() == fs.len(), ks.len() > 0, braces_broken(ks, fs)
+    ensures braces_broken(ks, fs.update(fs.len() - 1, true))
+{}
+
+pub proof fn lemma_mirrors_push(v: Seq<Scope>, p: Seq<bool>, x: Scope, b: bool)
+    requires mirrors(v, p), (x is Big) == b
+    ensures mirrors(v.push(x), p.push(b))
+{}
+
+pub proof fn lemma_mirrors_pop(v: Seq<Scope>, p: Seq<bool>)
+    requires mirrors(v, p), v.len() > 0
+    ensures mirrors(v.drop_last(), p.drop_last()), (v.last() is Big) == p.last()
+{}
+
+/// a character that is neither a bracket nor whitespace (this includes ',')
+pub proof fn lemma_arm_plain(input: Seq<char>, k: int, o0: Seq<char>, l0: int, tl0: Seq<Scope>, al0: Seq<Scope>, c: char)
+    requires arm_pre(input, k, o0, l0, tl0, al0, c), !is_opener(c), !is_closer(c)
+    ensures ind_inv(input, k, o0.push(c), l0, tl0, al0),
+            run(o0.push(c)).ind == -1, !run(o0.push(c)).lo, run(o0.push(c)).s == run(o0).s,
+{
+    let r0 = run(o0);
+    lemma_run_push(o0, c);
+    lemma_cnt_bounds(r0.s);
+    assert(kst(input, k) == kst(input, k - 1));
+}
+
+pub proof fn lemma_arm_comma_small(input: Seq<char>, k: int, o0: Seq<char>, l0: int, tl0: Seq<Scope>, al0: Seq<Scope>)
+    requires arm_pre(input, k, o0, l0, tl0, al0, ',')
+    ensures ind_inv(input, k, o0.push(',').push(' '), l0, tl0, al0)
+{
+    lemma_arm_plain(input, k, o0, l0, tl0, al0, ',');
+    lemma_run_push(o0.push(','), ' ');
+}
+
+pub proof fn lemma_arm_comma_big(input: Seq<char>, k: int, o0: Seq<char>, l0: int, tl0: Seq<Scope>, al0: Seq<Scope>)
+    requires arm_pre(input, k, o0, l0, tl0, al0, ',')
+    ensures ind_inv(input, k, o0.push(',').push('\n') + spaces(4 * l0), l0, tl0, al0)
+{
+    lemma_arm_plain(input, k, o0, l0, tl0, al0, ',');
+    let o1 = o0.push(',');
+    lemma_run_push(o1, '\n');
+    lemma_run_spaces(o1.push('\n'), 4 * l0);
+    lemma_cnt_bounds(run(o0).s);
+}
+
+pub proof fn lemma_arm_open_brace(input: Seq<char>, k: int, o0: Seq<char>, l0: int, tl0: Seq<Scope>, al0: Seq<Scope>)
+    requires arm_pre(input, k, o0, l0, tl0, al0, '{')
+    ensures ind_inv(input, k, o0.push(' ').push('{').push('\n') + spaces(4 * (l0 + 1)), l0 + 1, tl0, al0)
+{
+    let r0 = run(o0);
+    let ks0 = kst(input, k - 1);
+    lemma_cnt_bounds(r0.s);
+    lemma_run_push(o0, ' ');
+    let o1 = o0.push(' ');
+    let r1 = run(o1);
+    lemma_run_push(o1, '{');
+    let o2 = o1.push('{');
+    let r2 = run(o2);
+    assert(r2.ok);
+    assert(r2.s == r0.s.push(false));
+    lemma_run_push(o2, '\n');
+    let o3 = o2.push('\n');
+    let r3 = run(o3);
+    let s3 = r0.s.push(false).update(r0.s.len() as int, true);
+    assert(r3.s == s3);
+    assert(s3 =~= r0.s.push(true));
+    lemma_cnt_push(r0.s, true);
+    lemma_run_spaces(o3, 4 * (l0 + 1));
+    assert(kst(input, k) == ks0.push('{'));
+    lemma_braces_push(ks0, r0.s, '{', true);
+    lemma_proj_push(ks0, r0.s, '(', '{', true);
+    lemma_proj_push(ks0, r0.s, '<', '{', true);
+}
+
+pub proof fn lemma_arm_close_brace(input: Seq<char>, k: int, o0: Seq<char>, l0: int, tl0: Seq<Scope>, al0: Seq<Scope>)
+    requires arm_pre(input, k, o0, l0, tl0, al0, '}')
+    ensures ind_inv(input, k, (o0.push('\n') + spaces(4 * (l0 - 1))).push('}'), l0 - 1, tl0, al0)
+{
+    let r0 = run(o0);
+    let ks0 = kst(input, k - 1);
+    assert(ks0.len() > 0 && ks0.last() == '{');
+    assert(r0.s.last());
+    assert(!r0.lo);
+    lemma_cnt_bounds(r0.s);
+    lemma_cnt_drop_last(r0.s);
+    lemma_cnt_bounds(r0.s.drop_last());
+    lemma_run_push(o0, '\n');
+    let o1 = o0.push('\n');
+    lemma_run_spaces(o1, 4 * (l0 - 1));
+    let o2 = o1 + spaces(4 * (l0 - 1));
+    lemma_run_push(o2, '}');
+    assert(kst(input, k) == ks0.drop_last());
+    lemma_braces_pop(ks0, r0.s);
+    lemma_proj_pop(ks0, r0.s, '(');
+    lemma_proj_pop(ks0, r0.s, '<');
+}
+
+pub proof fn lemma_arm_open_paren_small(input: Seq<char>, k: int, o0: Seq<char>, l0: int, tl0: Seq<Scope>, al0: Seq<Scope>)
+    requires arm_pre(input, k, o0, l0, tl0, al0, '(')
+    ensures ind_inv(input, k, o0.push('('), l0, tl0.push(Scope::Small), al0)
+{
+    let r0 = run(o0);
+    let ks0 = kst(input, k - 1);
+    lemma_cnt_bounds(r0.s);
+    lemma_run_push(o0, '(');
+    lemma_cnt_push(r0.s, false);
+    assert(kst(input, k) == ks0.push('('));
+    lemma_braces_push(ks0, r0.s, '(', false);
+    lemma_proj_push(ks0, r0.s, '(', '(', false);
+    lemma_proj_push(ks0, r0.s, '<', '(', false);
+    lemma_mirrors_push(tl0, proj(ks0, r0.s, '('), Scope::Small, false);
+}
+
+pub proof fn lemma_arm_open_paren_big(input: Seq<char>, k: int, o0: Seq<char>, l0: int, tl0: Seq<Scope>, al0: Seq<Scope>)
+    requires arm_pre(input, k, o0, l0, tl0, al0, '(')
+    ensures ind_inv(input, k, o0.push('(').push('\n') + spaces(4 * (l0 + 1)), l0 + 1, tl0.push(Scope::Big), al0)
+{
+    let r0 = run(o0);
+    let ks0 = kst(input, k - 1);
+    lemma_cnt_bounds(r0.s);
+    lemma_run_push(o0, '(');
+    let o1 = o0.push('(');
+    lemma_run_push(o1, '\n');
+    let o2 = o1.push('\n');
+    let s2 = r0.s.push(false).update(r0.s.len() as int, true);
+    assert(run(o2).s == s2);
+    assert(s2 =~= r0.s.push(true));
+    lemma_cnt_push(r0.s, true);
+    lemma_run_spaces(o2, 4 * (l0 + 1));
+    assert(kst(input, k) == ks0.push('('));
+    lemma_braces_push(ks0, r0.s, '(', true);
+    lemma_proj_push(ks0, r0.s, '(', '(', true);
+    lemma_proj_push(ks0, r0.s, '<', '(', true);
+    lemma_mirrors_push(tl0, proj(ks0, r0.s, '('), Scope::Big, true);
+}
+
+pub proof fn lemma_arm_close_paren(input: Seq<char>, k: int, o0: Seq<char>, l0: int, tl0: Seq<Scope>, al0: Seq<Scope>)
+    requires arm_pre(input, k, o0, l0, tl0, al0, ')')
+    ensures
+        tl0.len() > 0,
+        tl0.last() is Big ==> ind_inv(input, k, (o0.push('\n') + spaces(4 * (l0 - 1))).push(')'), l0 - 1, tl0.drop_last(), al0),
+        !(tl0.last() is Big) ==> ind_inv(input, k, o0.push(')'), l0, tl0.drop_last(), al0),
+{
+    let r0 = run(o0);
+    let ks0 = kst(input, k - 1);
+    assert(ks0.len() > 0 && ks0.last() == '(');
+    lemma_cnt_bounds(r0.s);
+    lemma_cnt_drop_last(r0.s);
+    lemma_cnt_bounds(r0.s.drop_last());
+    lemma_proj_pop(ks0, r0.s, '(');
+    lemma_proj_pop(ks0, r0.s, '<');
+    lemma_mirrors_pop(tl0, proj(ks0, r0.s, '('));
+    assert(kst(input, k) == ks0.drop_last());
+    lemma_braces_pop(ks0, r0.s);
+    if tl0.last() is Big {
+        assert(r0.s.last());
+        assert(!r0.lo);
+        lemma_run_push(o0, '\n');
+        let o1 = o0.push('\n');
+        lemma_run_spaces(o1, 4 * (l0 - 1));
+        let o2 = o1 + spaces(4 * (l0 - 1));
+        lemma_run_push(o2, ')');
+    } else {
+        assert(!r0.s.last());
+        lemma_run_push(o0, ')');
+    }
+}
+
+pub proof fn lemma_arm_open_angle_small(input: Seq<char>, k: int, o0: Seq<char>, l0: int, tl0: Seq<Scope>, al0: Seq<Scope>)
+    requires arm_pre(input, k, o0, l0, tl0, al0, '<')
+    ensures ind_inv(input, k, o0.push('<'), l0, tl0, al0.push(Scope::Small))
+{
+    let r0 = run(o0);
+    let ks0 = kst(input, k - 1);
+    lemma_cnt_bounds(r0.s);
+    lemma_run_push(o0, '<');
+    lemma_cnt_push(r0.s, false);
+    assert(kst(input, k) == ks0.push('<'));
+    lemma_braces_push(ks0, r0.s, '<', false);
+    lemma_proj_push(ks0, r0.s, '(', '<', false);
+    lemma_proj_push(ks0, r0.s, '<', '<', false);
+    lemma_mirrors_push(al0, proj(ks0, r0.s, '<'), Scope::Small, false);
+}
+
+pub proof fn lemma_arm_open_angle_big(input: Seq<char>, k: int, o0: Seq<char>, l0: int, tl0: Seq<Scope>, al0: Seq<Scope>)
+    requires arm_pre(input, k, o0, l0, tl0, al0, '<')
+    ensures ind_inv(input, k, o0.push('<').push('\n') + spaces(4 * (l0 + 1)), l0 + 1, tl0, al0.push(Scope::Big))
+{
+    let r0 = run(o0);
+    let ks0 = kst(input, k - 1);
+    lemma_cnt_bounds(r0.s);
+    lemma_run_push(o0, '<');
+    let o1 = o0.push('<');
+    lemma_run_push(o1, '\n');
+    let o2 = o1.push('\n');
+    let s2 = r0.s.push(false).update(r0.s.len() as int, true);
+    assert(run(o2).s == s2);
+    assert(s2 =~= r0.s.push(true));
+    lemma_cnt_push(r0.s, true);
+    lemma_run_spaces(o2, 4 * (l0 + 1));
+    assert(kst(input, k) == ks0.push('<'));
+    lemma_braces_push(ks0, r0.s, '<', true);
+    lemma_proj_push(ks0, r0.s, '(', '<', true);
+    lemma_proj_push(ks0, r0.s, '<', '<', true);
+    lemma_mirrors_push(al0, proj(ks0, r0.s, '<'), Scope::Big, true);
+}
+
+pub proof fn lemma_arm_close_angle(input: Seq<char>, k: int, o0: Seq<char>, l0: int, tl0: Seq<Scope>, al0: Seq<Scope>)
+    requires arm_pre(input, k, o0, l0, tl0, al0, '>')
+    ensures
+        al0.len() > 0,
+        al0.last() is Big ==> ind_inv(input, k, (o0.push('\n') + spaces(4 * (l0 - 1))).push('>'), l0 - 1, tl0, al0.drop_last()),
+        !(al0.last() is Big) ==> ind_inv(input, k, o0.push('>'), l0, tl0, al0.drop_last()),
+{
+    let r0 = run(o0);
+    let ks0 = kst(input, k - 1);
+    assert(ks0.len() > 0 && ks0.last() == '<');
+    lemma_cnt_bounds(r0.s);
+    lemma_cnt_drop_last(r0.s);
+    lemma_cnt_bounds(r0.s.drop_last());
+    lemma_proj_pop(ks0, r0.s, '(');
+    lemma_proj_pop(ks0, r0.s, '<');
+    lemma_mirrors_pop(al0, proj(ks0, r0.s, '<'));
+    assert(kst(input, k) == ks0.drop_last());
+    lemma_braces_pop(ks0, r0.s);
+    if al0.last() is Big {
+        assert(r0.s.last());
+        assert(!r0.lo);
+        lemma_run_push(o0, '\n');
+        let o1 = o0.push('\n');
+        lemma_run_spaces(o1, 4 * (l0 - 1));
+        let o2 = o1 + spaces(4 * (l0 - 1));
+        lemma_run_push(o2, '>');
+    } else {
+        assert(!r0.s.last());
+        lemma_run_push(o0, '>');
     }
 }
 
